@@ -64,32 +64,27 @@ def uses_foreign_param(events):
 
 
 def rewraps(events):
-    """an Input object is wrapped more than once (scalar wrapper kept after `Array(x, size)`, or two
-    scalar wrappers of one Input) and an earlier wrapper is used afterwards"""
+    """an Input object is wrapped more than once (a scalar wrapper kept next to `Array(x, size)`, or
+    two scalar wrappers of one Input) and a wrapper other than the last one is used somewhere"""
     reg = 0
-    src = {}          # register -> input register it wraps
-    wrapped = {}      # input register -> list of wrapper registers
-    used_after = False
+    src = {}          # wrapper register -> input register it wraps
+    wrapped = {}      # input register -> wrapper registers, in order
+    used = set()
     for ev in events:
         c = ev.get("c")
         if c is None:
-            for v, _, _ in ev["compile"]:
-                i = src.get(v)
-                if i is not None and wrapped.get(i, [v])[-1] != v:
-                    used_after = True
+            used.update(v for v, _, _ in ev["compile"])
             continue
-        for r in operand_regs(c):
-            i = src.get(r)
-            if i is not None and wrapped[i][-1] != r and c["op"] not in ("wrap",):
-                used_after = True
         if c["op"] == "wrap":
             src[reg] = c["r"]
             wrapped.setdefault(c["r"], []).append(reg)
         elif c["op"] == "arrayOf" and c["r"] in src:
             src[reg] = src[c["r"]]
             wrapped[src[reg]].append(reg)
+        else:
+            used.update(operand_regs(c))
         reg += len(c["params"]) if c["op"] == "beginFn" else 1
-    return used_after
+    return any(len(ws) > 1 and any(w in used for w in ws[:-1]) for ws in wrapped.values())
 
 
 def unsized_array(events):
@@ -119,7 +114,7 @@ def run_graph(res, tier, prop, oracle, project=None, classify=None, spec_key=Non
     """oracle(mir, record) -> [(kind, text)]; project(mir) -> projection compared between model and
     real; classify(kind, record, mir) -> name of a hypothesis the program violates (or None)."""
     n, size = n_programs(tier)
-    findings = [f for f in core.load_findings().get("findings", []) if f["property"] == prop]
+    findings = [f for f in core.load_findings().get("findings", []) if prop in f["properties"] and "witness" in f]
     # 1. witnesses of the listed findings are replayed on the real code
     for f in findings:
         reset_globals()
@@ -127,8 +122,9 @@ def run_graph(res, tier, prop, oracle, project=None, classify=None, spec_key=Non
         hit = False
         for r in m.results:
             if "mir" in r:
-                for kind, text in oracle(cm.canon_mir(r["mir"]), {"events": m.events, "facts": k12.reg_facts(m)}):
-                    if kind == f["signature"]["kind"]:
+                for kind, text in oracle(cm.canon_mir(r["mir"]), {"events": m.events, "real": m.results, "facts": k12.reg_facts(m),
+                                                                  "compile": next(e["compile"] for e, rr in zip(m.events, m.results) if rr is r)}):
+                    if kind in f["signature"]["kinds"]:
                         hit = True
         if hit:
             res.known.append(f"{f['id']}: {f['what']}")
@@ -157,7 +153,7 @@ def run_graph(res, tier, prop, oracle, project=None, classify=None, spec_key=Non
             sig = json.dumps(real["operations"], sort_keys=True)
             if len(real["operations"]) >= 3:
                 nontrivial.add(hash(sig))
-            viol = oracle(real, rec)
+            viol = oracle(real, dict(rec, compile=ev["compile"]))
             if spec_key and "spec" in mr and "mir" in mr and cm.first_diff(real, mr["mir"]) is None:
                 lean_ok = all(mr["spec"][k] for k in spec_key)
                 py_ok = not [k for k, _ in viol if k in spec_kinds(spec_key)] if spec_kinds(spec_key) else not viol
@@ -165,7 +161,7 @@ def run_graph(res, tier, prop, oracle, project=None, classify=None, spec_key=Non
                     raise core.Infra(f"Lean spec {spec_key}={mr['spec']} and Python oracle disagree on {rec['id']}: {viol[:3]}")
             for kind, text in viol:
                 hyp = classify(kind, rec, real) if classify else None
-                fid = next((f["id"] for f in findings if f["signature"]["kind"] == kind
+                fid = next((f["id"] for f in findings if kind in f["signature"]["kinds"]
                             and f["signature"].get("hypothesis") == hyp), None) if hyp else None
                 if fid:
                     masked[fid] = masked.get(fid, 0) + 1
@@ -217,7 +213,8 @@ def replay_graph(obj, prop, oracle):
     bad = []
     for r in m.results:
         if "mir" in r:
-            bad += [v for v in oracle(cm.canon_mir(r["mir"]), {"events": m.events, "facts": k12.reg_facts(m)})
+            bad += [v for v in oracle(cm.canon_mir(r["mir"]), {"events": m.events, "real": m.results, "facts": k12.reg_facts(m),
+                                                               "compile": next(e["compile"] for e, rr in zip(m.events, m.results) if rr is r)})
                     if v[0] == obj.get("kind", v[0])]
     print(json.dumps({"events": len(m.events), "violations": bad[:5]}, default=str)[:2000])
     if bad:
